@@ -62,4 +62,8 @@ class RemoveDebug(SuiteTransformer):
             else:
                 return [self.add_child(ast.Expr(value=ast.Num(0)), parent=parent)]
 
+        if self.can_remove(node_list[0]) and isinstance(without_debug[0], ast.Expr) and is_constant_node(without_debug[0].value, ast.Str):
+            # Without the debug blocks in front of it, this string would become a docstring
+            without_debug.insert(0, self.add_child(ast.Expr(value=ast.Num(0)), parent=parent))
+
         return without_debug
